@@ -124,6 +124,13 @@ check("C19",
       "DRIFT only; accepted 1-D results are validated against Ref.",
       TB + " sparse/cubed are not installed.", "TLC on the decision model (full configuration product) + trace validation of executed cells", "DESIGN.md section 5 C19")
 
+check("C12",
+      "Lifecycle.tla (idle -> constructing -> returned -> computing) with NoEagerEvaluation / ReturnsLazy / NoPeekingAtChunkedLabels model-checked; every "
+      "configuration cell of groupby_reduce / groupby_scan / xarray_reduce is replayed with poisoned inputs (every chunk wrapped in an evaluation probe) and the "
+      "recorded event stream call/eval/return/compute validated by the stateful trace spec TraceLazy.tla; for chunked labels without expected_groups the "
+      "(labels found, values) mapping is validated against Ref by TraceReduce.tla.",
+      TB, "TLC life-cycle model + stateful trace validation of probe events", "DESIGN.md section 5 C12")
+
 ALL = [f"C{n:02d}" for n in range(1, 21)]
 
 def main():
